@@ -1,4 +1,10 @@
 From Coq Require Import ExtrOcamlBasic.
-From ChibiV Require Import Common.ExtractBase C17.Model C17.Spec.
+From ChibiV Require Import Common.ExtractBase C17.Model C17.Spec C17.SchemeBase Gen.C17_Bitwise.
 Extraction "model.ml" ext_base ival bit_and bit_ior bit_xor arithmetic_shift bit_count integer_length bit_set_p
-  set_tc fix_to_tc fxadd normalize bit_count_w integer_log2 log2i spec bit_count_spec integer_length_spec.
+  set_tc fix_to_tc fxadd normalize bit_count_w integer_log2 log2i spec bit_count_spec integer_length_spec
+  s_bitwise_not s_bitwise_and s_bitwise_ior s_bitwise_xor s_bitwise_eqv s_bitwise_nand s_bitwise_nor
+  s_bitwise_andc1 s_bitwise_andc2 s_bitwise_orc1 s_bitwise_orc2 s_any_bit_set_p s_every_bit_set_p s_first_set_bit
+  s_bitwise_if s_bit_field s_bit_field_any_p s_bit_field_every_p s_bit_field_clear s_bit_field_set
+  s_bit_field_replace s_bit_field_replace_same s_bit_field_rotate s_bit_field_reverse s_copy_bit s_bit_swap
+  s_vector_to_bits s_bits_to_vector s_list_to_bits s_bits_to_list s_bits s_bitwise_fold s_bitwise_unfold
+  s_make_bitwise_generator_step.
